@@ -1102,6 +1102,9 @@ pub enum Counter {
     AlphaLower
 }
 
+/// Name and number trees deeper than this are rejected (a tree whose kids lead back to an ancestor never ends).
+const MAX_TREE_DEPTH: usize = 32;
+
 #[derive(Debug, DataSize)]
 pub enum NameTreeNode<T> {
     ///
@@ -1119,6 +1122,12 @@ pub struct NameTree<T> {
 }
 impl<T: Object+DataSize> NameTree<T> {
     pub fn walk(&self, r: &impl Resolve, callback: &mut dyn FnMut(&PdfString, &T)) -> Result<(), PdfError> {
+        self.walk_limited(r, callback, MAX_TREE_DEPTH)
+    }
+    fn walk_limited(&self, r: &impl Resolve, callback: &mut dyn FnMut(&PdfString, &T), depth: usize) -> Result<(), PdfError> {
+        if depth == 0 {
+            bail!("name tree depth exceeded");
+        }
         match self.node {
             NameTreeNode::Leaf(ref items) => {
                 for (name, val) in items {
@@ -1128,7 +1137,7 @@ impl<T: Object+DataSize> NameTree<T> {
             NameTreeNode::Intermediate(ref items) => {
                 for &tree_ref in items {
                     let tree = r.get(tree_ref)?;
-                    tree.walk(r, callback)?;
+                    tree.walk_limited(r, callback, depth - 1)?;
                 }
             }
         }
@@ -1285,6 +1294,12 @@ impl<T: ObjectWrite> ObjectWrite for NumberTree<T> {
 }
 impl<T: Object+DataSize> NumberTree<T> {
     pub fn walk(&self, r: &impl Resolve, callback: &mut dyn FnMut(i32, &T)) -> Result<(), PdfError> {
+        self.walk_limited(r, callback, MAX_TREE_DEPTH)
+    }
+    fn walk_limited(&self, r: &impl Resolve, callback: &mut dyn FnMut(i32, &T), depth: usize) -> Result<(), PdfError> {
+        if depth == 0 {
+            bail!("number tree depth exceeded");
+        }
         match self.node {
             NumberTreeNode::Leaf(ref items) => {
                 for &(idx, ref val) in items {
@@ -1294,7 +1309,7 @@ impl<T: Object+DataSize> NumberTree<T> {
             NumberTreeNode::Intermediate(ref items) => {
                 for &tree_ref in items {
                     let tree = r.get(tree_ref)?;
-                    tree.walk(r, callback)?;
+                    tree.walk_limited(r, callback, depth - 1)?;
                 }
             }
         }
